@@ -21,7 +21,7 @@ func init() {
 		MinNontriv:  30,
 		Cases: func(tier string) int {
 			if tier == "thorough" {
-				return 20000
+				return 200000
 			}
 			return 2000
 		},
